@@ -7,6 +7,7 @@ import (
 	"errors"
 
 	"github.com/ipfs/go-cid"
+	ci "github.com/libp2p/go-libp2p/core/crypto"
 	ds "github.com/ipfs/go-datastore"
 	dssync "github.com/ipfs/go-datastore/sync"
 	"github.com/libp2p/go-libp2p/core/network"
@@ -380,7 +381,8 @@ func VfFindProviders() {
 	ctx, cancel := context.WithCancel(context.Background())
 	defer cancel()
 	c := vfCid("content")
-	count := vfChoose("count", vfParam("MAXCOUNT")+1)
+	vfSchedBudget(vfParam("SWITCH"))
+	count := vfParam("MINCOUNT") + vfChoose("count", vfParam("MAXCOUNT")-vfParam("MINCOUNT")+1)
 	cand := []peer.ID{peer.ID("prov-a"), peer.ID("prov-b"), peer.ID("prov-c")}
 	// local providers
 	nLocal := vfChoose("nLocal", 2)
@@ -449,6 +451,9 @@ func VfFindProviders() {
 	if count > 0 {
 		vfAssert(len(distinct) <= count, "findproviders/at-most-count-distinct-peers")
 		for _, p := range ids {
+			if vfParam("SWITCH") > 0 {
+				break // requests already in flight when count is reached cannot be recalled
+			}
 			if n, ok := yieldedWhenAsked[p]; ok {
 				// a peer is only asked while fewer than count distinct providers are out
 				d0 := map[peer.ID]bool{}
@@ -474,3 +479,132 @@ var _ = vfRegister("VfSearchValue", VfSearchValue)
 var _ = vfRegister("VfPutValue", VfPutValue)
 var _ = vfRegister("VfProvide", VfProvide)
 var _ = vfRegister("VfFindProviders", VfFindProviders)
+
+// VfProcessValues (C04-H1): the selection loop with an arbitrary quorum.
+func VfProcessValues() {
+	L := vfParam("L")
+	e, _, _ := vfClientEnv(2, 1)
+	d := e.dht
+	ctx := context.Background()
+	n := vfChoose("nValues", L+1)
+	nvals := vfChoose("quorum", L+1)
+	vals := make(chan recvdVal, L)
+	ranks := make([]byte, n)
+	for i := 0; i < n; i++ {
+		ranks[i] = vfU8("rank")
+		vals <- recvdVal{Val: []byte{1, ranks[i]}, From: peer.ID("sender-" + string(rune('a'+i%2)))}
+	}
+	close(vals)
+	out := make(chan []byte, L+1)
+	stopCh := make(chan struct{})
+	best, withBest, aborted := d.searchValueQuorum(ctx, "/vf/key", vals, stopCh, out, nvals)
+	close(out)
+	var emitted [][]byte
+	for v := range out {
+		emitted = append(emitted, v)
+	}
+	// the values processed before the search ended: all of them, or the first
+	// quorum+1 when a quorum is set
+	processed := n
+	if nvals > 0 && n > nvals {
+		processed = nvals + 1
+	}
+	for i := 1; i < len(emitted); i++ {
+		vfAssert(emitted[i][1] > emitted[i-1][1], "process/emitted-values-strictly-improve")
+	}
+	if processed == 0 {
+		vfAssert(best == nil && len(emitted) == 0, "process/nothing-from-nothing")
+	} else {
+		vfAssert(len(emitted) > 0 && best != nil, "process/some-value-is-yielded")
+		for i := 0; i < processed; i++ {
+			vfAssert(len(emitted) > 0 && emitted[len(emitted)-1][1] >= ranks[i], "process/final-yielded-value-is-at-least-as-good-as-every-processed-value")
+		}
+		vfAssert(best != nil && len(emitted) > 0 && best[1] == emitted[len(emitted)-1][1], "process/best-is-the-last-yielded-value")
+		// peersWithBest = exactly the senders of the final best value among the processed ones
+		for s := 0; s < 2; s++ {
+			id := peer.ID("sender-" + string(rune('a'+s)))
+			sent := false
+			for i := 0; i < processed; i++ {
+				if i%2 == s && best != nil && ranks[i] == best[1] {
+					sent = true
+				}
+			}
+			_, has := withBest[id]
+			vfAssert(has == sent, "process/peers-with-best-are-exactly-the-senders-of-the-best-value")
+		}
+	}
+	vfAssert(aborted == (nvals > 0 && n > nvals), "process/aborts-iff-the-quorum-is-exceeded")
+	vfReach("process/end")
+}
+
+// vfFakePubKey stands for a decoded public key; which peer ID it hashes to is
+// decided by the (intercepted) peer.IDFromPublicKey.
+type vfFakePubKey struct {
+	ci.PubKey
+	tag byte
+}
+
+var vfDerivedID peer.ID
+var vfUnmarshalFails, vfDeriveFails bool
+
+func vfModelUnmarshalPublicKey(data []byte) (ci.PubKey, error) {
+	if vfUnmarshalFails {
+		return nil, errors.New("bad key")
+	}
+	return &vfFakePubKey{tag: 1}, nil
+}
+
+func vfModelIDFromPublicKey(pk ci.PubKey) (peer.ID, error) {
+	if vfDeriveFails {
+		return "", errors.New("cannot derive id")
+	}
+	return vfDerivedID, nil
+}
+
+//verif:intercept VfPublicKeyFromNode github.com/libp2p/go-libp2p/core/crypto.UnmarshalPublicKey = vfModelUnmarshalPublicKey
+//verif:intercept VfPublicKeyFromNode github.com/libp2p/go-libp2p/core/peer.IDFromPublicKey = vfModelIDFromPublicKey
+
+// VfPublicKeyFromNode (C04-H4): a public key obtained from the node itself is
+// returned only if it hashes to the requested peer ID. Key decoding and ID
+// derivation are arbitrary functions (intercepted models).
+func VfPublicKeyFromNode() {
+	e, _, _ := vfClientEnv(2, 1)
+	d := e.dht
+	p := peer.ID("the-peer")
+	other := peer.ID("another-peer")
+	vfUnmarshalFails = vfBool("unmarshalFails")
+	vfDeriveFails = vfBool("deriveFails")
+	matches := vfBool("keyHashesToRequestedPeer")
+	vfDerivedID = other
+	if matches {
+		vfDerivedID = p
+	}
+	kind := vfChoose("answer", 4)
+	e.sender.reply = func(_ context.Context, to peer.ID, req *pb.Message) (*pb.Message, error) {
+		switch kind {
+		case 0:
+			return nil, errors.New("rpc failed")
+		case 1:
+			return pb.NewMessage(pb.Message_GET_VALUE, req.Key, 0), nil // no record
+		case 2:
+			resp := pb.NewMessage(pb.Message_GET_VALUE, req.Key, 0)
+			resp.Record = &recpb.Record{Key: []byte("/pk/someone-else"), Value: []byte("key-bytes")}
+			return resp, nil
+		}
+		resp := pb.NewMessage(pb.Message_GET_VALUE, req.Key, 0)
+		resp.Record = &recpb.Record{Key: req.Key, Value: []byte("key-bytes")}
+		return resp, nil
+	}
+	pk, err := d.getPublicKeyFromNode(context.Background(), p)
+	vfAssert((pk == nil) != (err == nil), "pubkey/key-xor-error")
+	if pk != nil {
+		vfAssert(kind == 3 && !vfUnmarshalFails && !vfDeriveFails && matches, "pubkey/returned-key-hashes-to-the-requested-peer")
+	}
+	if kind == 3 && !vfUnmarshalFails && !vfDeriveFails && matches {
+		vfAssert(pk != nil, "pubkey/matching-key-is-returned")
+	}
+	vfReach("pubkey/end")
+}
+
+var _ = vfRegister("VfProcessValues", VfProcessValues)
+var _ = vfRegister("VfPublicKeyFromNode", VfPublicKeyFromNode)
